@@ -82,9 +82,22 @@ UNIT_TRUSTED["daemon_export"] = [
     "NOT under contract: the callers of process_nlri_change (handle_prefix_update, on_established's initial dump, do_route_refresh: async) and the effective_max / cluster_id / policy they pass; the inbound ORIGINATOR_ID / CLUSTER_LIST loop checks in rx_update (async)",
 ]
 
+UNIT_TRUSTED["packet_bmp"] = [
+    "prelude p_bytes: bytes::BufMut as an append-only byte sequence (external trait extension: put_u8 / put_u16 / put_u32 / put_u64 / put_slice append the big-endian bytes — assumed for every implementation), BytesMut::{len, with_capacity, as_ref}; R11 helper vx_patch_u32 for `(&mut c.as_mut()[pos..]).write_u32::<NetworkEndian>(v).unwrap()` (overwrites four bytes in place; requires pos + 4 <= len, which turns the unwrap into an obligation); tokio_util Encoder as an external trait",
+    "prelude p_bmp: PeerCodec::encode_to is NOT under contract (C04): R11 helper vx_encode_to assumes it returns Ok, appends bgp_wire(codec, msg) — an uninterpreted byte string that may hold several BGP frames — and leaves the codec alone; set_family(.., FamilyState { addpath_tx, ..Default }) outlined as codec_with_addpath; IpAddr / Ipv4Addr / Ipv6Addr octets uninterpreted with their lengths; PeerCodec::new() = fresh_codec()",
+    "A-C19-1 (truncating casts the code performs): the record is shorter than 4 GiB (`len as u32`), an Initiation TLV value shorter than 64 KiB (`bin.len() as u16`); the contract mirrors the truncation, so well-formedness of longer inputs is NOT claimed",
+    "NOT covered: that the embedded BGP PDUs parse back to the monitored routes (bgp_wire is uninterpreted; C04 not claimed), the daemon-side converters in daemon/src/bmp.rs (async / channel code), statistics / mirroring / termination messages (no body)",
+]
+UNIT_TRUSTED["packet_mrt"] = [
+    "prelude p_bytes / p_bmp as for packet_bmp; additionally R11 helpers vx_unix_secs (any u32), vx_attr_encode_wire / vx_nlri_encode (append attr_wire(a) / nlri_wire(n), uninterpreted: C04), vx_patch_u16, Nexthop::to_bytes = 4, 16 or 32 octets, Family::IPV4.afi() = 1 and Family::IPV6.afi() = 2",
+    "write_mrt_record takes the body writer as `impl FnOnce(&mut BytesMut)`: its contract is stated over call_ensures of that closure (the writer only appends; if it always appends b the record is header(len b) + b); the three closures of encode_table_dump are verified in place against their byte-level bodies",
+    "A-C19-2 (truncating casts the code performs): fewer than 65536 peers / RIB entries per record, attribute block shorter than 64 KiB, next hop at most 254 bytes — mirrored, not claimed beyond; A-C19-3: MpHeader::encode writes the local address only when it has the peer address's family (always the case for a TCP session) and 2-byte AS numbers when is_asn4 is false although the record subtype says AS4 (the daemon always passes true): both mirrored in mp_header_bytes, well-formedness for the other inputs is NOT claimed",
+    "NOT covered: daemon/src/mrt.rs (dump_table's peer-index / sequence-number bookkeeping, async), that embedded BGP data parses back (C04)",
+]
+
 # minimum number of functions that must produce obligations / of must-fail twins that must run
-FLOORS = {"daemon_fsm": 30, "daemon_gr": 4, "daemon_peer_tx": 7, "table_cmp": 20, "packet_validate": 1, "packet_parse": 1, "table_rpki": 3, "table_policy": 6, "daemon_export": 11}
-TWIN_FLOORS = {"daemon_fsm": 8, "daemon_gr": 3, "daemon_peer_tx": 2, "table_cmp": 4, "packet_validate": 1, "packet_parse": 1, "table_rpki": 1, "table_policy": 1, "daemon_export": 1}
+FLOORS = {"daemon_fsm": 30, "daemon_gr": 4, "daemon_peer_tx": 7, "table_cmp": 20, "packet_validate": 1, "packet_parse": 1, "table_rpki": 3, "table_policy": 6, "daemon_export": 11, "packet_bmp": 6, "packet_mrt": 8}
+TWIN_FLOORS = {"daemon_fsm": 8, "daemon_gr": 3, "daemon_peer_tx": 2, "table_cmp": 4, "packet_validate": 1, "packet_parse": 1, "table_rpki": 1, "table_policy": 1, "daemon_export": 1, "packet_bmp": 1, "packet_mrt": 1}
 
 PLAN = {
     "C01": {"verus": ["daemon_peer_tx", "daemon_export"], "level": "proof",
@@ -101,6 +114,7 @@ PLAN = {
     "C14": {"verus": ["table_policy"], "level": "proof"},
     "C16": {"verus": ["daemon_fsm"], "kani": ["c16_ipnet_contains_v4", "c16_ipnet_contains_v6"], "level": "proof"},
     "C02": {"verus": ["table_cmp"], "level": "proof"},
+    "C19": {"verus": ["packet_bmp", "packet_mrt"], "level": "proof"},
     "C03": {"verus": ["packet_parse"], "level": "proof",
             "kani": ["bfd_decode_total_and_exact", "bfd_decode_mustfail", "rtr_frame_length_contract",
                      "rtr_from_bytes_total", "rtr_decode_framing", "bgp_try_parse_framing", "c03_nlri_ipv4", "c03_nlri_ipv6"]},
